@@ -451,9 +451,25 @@ def probe_d7():
                 except Exception:
                     pass
                 try:
-                    _D7.append(core.my_id(h.statepoint()) == h.id)
+                    ok1 = core.my_id(h.statepoint()) == h.id
                 except Exception:
-                    _D7.append(True)
+                    ok1 = True
+                # ... and the variant in which the file was replaced by another state point
+                c = p.open_job({"k": 2, "x": 2}).init()
+                p.open_job({"x": 2}).init()
+                h2 = p.open_job({"k": 2, "x": 2})
+                h2.sp
+                with open(c.fn(SP_FILE), "w") as f:
+                    f.write('{"k": 3, "x": 2}')
+                try:
+                    del h2.sp["k"]
+                except Exception:
+                    pass
+                try:
+                    ok2 = core.my_id(h2.statepoint()) == h2.id
+                except Exception:
+                    ok2 = True
+                _D7.append(ok1 and ok2)
             finally:
                 shutil.rmtree(d, ignore_errors=True)
                 if hasattr(_StatePointDict, "_locks"):
